@@ -140,7 +140,10 @@ func (g *PGen) S(d int) *Node {
 		}
 		return Call("set!", A(gl), g.E(d-1))
 	}
-	if g.o.Stderr && g.r.Chance(1, 10) {
+	if g.o.Stderr && g.r.Chance(1, 6) {
+		if g.r.Chance(1, 4) {
+			return Call("debug-stack")
+		}
 		return Call("debug-print", g.E(d-1))
 	}
 	return g.Probe(g.E(d - 1))
